@@ -14,7 +14,7 @@ import (
 // when it is non-empty, names no free channel and every key names a stored channel.
 func VerifC07IteratorOpenValidates() {
 	ctx := context.Background()
-	db := gorp.VerifOpenDB(&gorp.VerifKV{}, channel.VerifChanCodec())
+	db := gorp.VerifOpenDB(&gorp.VerifKV{}, channel.HarnessChanCodec())
 	chs := channel.VerifNewService(db)
 	keys := [3]channel.Key{channel.NewKey(1, 1), channel.NewKey(2, 1), channel.NewKey(aspen.NodeKeyFree, 3)} // the last one is free
 	var stored [3]bool
